@@ -49,8 +49,8 @@ for _csig in stdlib_funcs:
 # matter if the wrong thing gets written in a branch where defeat is
 # inevitable.  But it's probably a pointless optimization.
 
-# TODO: test for stack overflow in write_int,
-#  May need up to 4 words of stack space: 1 for RA + 3 for buffer.
+# write_int tests for stack overflow itself: it may need up to 4 words
+# of stack space: 1 for RA + 3 for the digit buffer.
 
 stdlib_lines = list(filter(None, textwrap.dedent("""
     all_is_win:
@@ -154,6 +154,14 @@ stdlib_lines = list(filter(None, textwrap.dedent("""
 
 
     write_int:
+        ; The digit buffer lives below the frame: RA + up to 3 bytes of
+        ; digits per byte of word fit in 4 words.
+        j write_int_no_overflow
+        sub [r1], [fp], [ap]
+        hgeu [r1], 4w
+        j stack_overflow
+        halt
+        write_int_no_overflow:
         add [r0], [fp], -1w
         lwso [r2], [fp], -2w
         j write_int_pos
